@@ -103,6 +103,7 @@ class BaseClient:
         self.callbacks = {}
         self._binary_packet = None
         self._transport_ended = False
+        self._ending_namespaces = set()
         self._connect_event = None
         self._reconnect_task = None
         self._reconnect_abort = None
